@@ -59,6 +59,13 @@ def cache_sources(ctx):
 
 
 def check(ctx):
+    n_methods = family_rules(ctx, {"a": "C10-a", "b": "C10-b", "c": "C10-c", "d": "C10-d"})
+    ctx.floor("C10", n_methods, 12, "methods of the reservoir family")
+
+
+def family_rules(ctx, ids):
+    """Typestate / effect rules over the reservoir family; `ids` maps clause letters to the rule ids to
+    report under (a clause mapped to None is skipped) - C01 and C17 reuse clauses b and a."""
     P = ctx.P
     sources = cache_sources(ctx)
     if not {"time", "pseudopressure"} <= sources:
@@ -120,30 +127,32 @@ def check(ctx):
                                 leftovers.add(s)
                     if leftovers:
                         bad_reads.append((sorted(leftovers), tag))
-            ctx.check(
-                not stale_paths, "C10-a", cons + ":cache invalidation", where,
+            if ids.get("a"):
+              ctx.check(
+                not stale_paths, ids["a"], cons + ":cache invalidation", where,
                 f"on every normal path that overwrites a source of self.{CACHE} ({', '.join(sorted(sources))}) the cache is deleted or recomputed afterwards",
                 signature="stale cache", stale_on_paths=stale_paths[:4],
             )
-            ctx.check(
-                not cfg_writes, "C10-b", cons + ":configuration", where,
+            if ids.get("b"):
+              ctx.check(
+                not cfg_writes, ids["b"], cons + ":configuration", where,
                 "no method other than the constructor assigns a configuration field (" + ", ".join(sorted(fields)) + ")",
                 signature="config write " + ",".join(sorted({a for a, _l, _t in cfg_writes})), writes=[f"self.{a} at line {l} [{t}]" for a, l, t in cfg_writes[:4]],
             )
-            if name == "simulate":
+            if name == "simulate" and ids.get("c"):
                 ctx.check(
-                    not missing_out, "C10-c", cons + ":outputs overwritten", where,
+                    not missing_out, ids["c"], cons + ":outputs overwritten", where,
                     "every normal path assigns both self.time and self.pseudopressure", signature="output not overwritten", missing=[f"{o} [{t}]" for o, t in missing_out[:4]],
                 )
                 ctx.check(
-                    not bad_reads, "C10-c", cons + ":no leftover state read", where,
+                    not bad_reads, ids["c"], cons + ":no leftover state read", where,
                     "simulate computes from its arguments and the configuration only: nothing of a previous run (time, pseudopressure, recovery) is read",
                     signature="reads previous run", reads=[f"{r} [{t}]" for r, t in bad_reads[:4]],
                 )
-            if name in READERS:
+            if name in READERS and ids.get("d"):
                 ctx.check(
-                    not foreign_writes, "C10-d", cons + ":pure reader", where,
+                    not foreign_writes, ids["d"], cons + ":pure reader", where,
                     f"the reader stores nothing on the object except the cache self.{CACHE}",
                     signature="reader writes " + ",".join(sorted({a for a, _l, _t in foreign_writes})), writes=[f"self.{a} at line {l} [{t}]" for a, l, t in foreign_writes[:4]],
                 )
-    ctx.floor("C10", n_methods, 12, "methods of the reservoir family")
+    return n_methods
